@@ -708,6 +708,17 @@ def r10_loader_complete(ctx, rule):
                         'every line of a terminal file is a value of the grammar; a loader that drops lines by their content '
                         "(blank, starting with '#', ...) silently removes terminals - and whole probability groups - that the "
                         'trainer wrote', None, st)
+    # the other spelling of "skip the line after a malformed one": next(<the file>, None) inside the handler
+    for c in calls_in(lp):
+        if call_name(c) == 'next' and c.args and U(c.args[0]) == U(lp.iter):
+            n += 1
+            st_ = mod.parents.get(id(c))
+            while st_ is not None and not isinstance(st_, ast.stmt):
+                st_ = mod.parents.get(id(st_))
+            if st_ is None or not any(isinstance(a, ast.ExceptHandler) for a in enclosing_stmt_chain(mod, st_)):
+                bad = True
+                ctx.bad(rule, q, 'loader consumes a line outside its error recovery: ' + U(c)[:60],
+                        'every line of a terminal file is a value of the grammar', None, c)
     if ctx.floor(rule, q, n, 3, 'skip statements in the terminal loader') and not bad:
         ctx.ok(rule, q, 'the only skipped lines are the error-recovery cases (undecodable line, unparsable record, line after one)')
 
